@@ -233,10 +233,10 @@ theorem neutralTail_nb {ch : Bool} {op : BinOp} {l r : Arg} {c : Bool} {a' : Arg
       obtain ⟨_, rfl⟩ := he
       exact neutralMain_nb hl hr hlr
 
-theorem neutralizeRaw_nb {op : BinOp} {l r : Arg} {c : Bool} {a' : Arg} (h : nb (.bin op l r) = true)
-    (he : neutralizeRaw (.bin op l r) = .ok (c, a')) : nb a' = true ∧ isC a' = false := by
+theorem neutralizeBin_nb {op : BinOp} {l r : Arg} {c : Bool} {a' : Arg} (h : nb (.bin op l r) = true)
+    (he : neutralizeBin op l r = .ok (c, a')) : nb a' = true ∧ isC a' = false := by
   obtain ⟨hl, hr, hlr⟩ := nb_bin.1 h
-  simp only [neutralizeRaw] at he
+  simp only [neutralizeBin] at he
   split at he
   · cases hn : normAddSub (decide (op = .sub)) r with
     | ok p =>
@@ -247,6 +247,97 @@ theorem neutralizeRaw_nb {op : BinOp} {l r : Arg} {c : Bool} {a' : Arg} (h : nb 
     | err e => simp [hn] at he
     | panic => simp [hn] at he
   · exact neutralTail_nb hl hr hlr he
+
+/-! ### the swap at the top of `neutralize_raw` (repair of K5) -/
+
+theorem swapped_ok {x : Res (Bool × Arg)} {c : Bool} {a : Arg} (h : swapped x = .ok (c, a)) :
+    c = true ∧ ∃ c', x = .ok (c', a) := by
+  cases x with
+  | ok p => obtain ⟨c', y⟩ := p; simp only [swapped, Res.ok.injEq, Prod.mk.injEq] at h; exact ⟨h.1.symm, c', by rw [h.2]⟩
+  | err e => cases h
+  | panic => cases h
+
+theorem swapped_err {x : Res (Bool × Arg)} {e : SimpErr} (h : swapped x = .err e) : x = .err e := by
+  cases x with
+  | ok p => cases h
+  | err e' => simpa [swapped] using h
+  | panic => cases h
+
+theorem swapped_panic {x : Res (Bool × Arg)} (h : swapped x = .panic) : x = .panic := by
+  cases x with
+  | ok p => cases h
+  | err e' => cases h
+  | panic => rfl
+
+theorem neutralizeRaw_neg_sub (l r : Arg) : neutralizeRaw (.neg (.bin .sub l r)) = swapped (neutralizeBin .sub r l) := by
+  simp only [neutralizeRaw]
+
+theorem neutralizeRaw_zero_sub (x y : Arg) :
+    neutralizeRaw (.bin .sub (.const 0) (.bin .sub x y)) = swapped (neutralizeBin .sub y x) := by
+  simp only [neutralizeRaw, if_true]
+
+/-- a binary node: either the swap `0 - (x - y) ↦ y - x` applies, or `neutralize_raw` is the passes on the node -/
+theorem neutralizeRaw_bin_cases (op : BinOp) (l r : Arg) :
+    neutralizeRaw (.bin op l r) = neutralizeBin op l r ∨
+    ∃ x y, op = .sub ∧ l = .const 0 ∧ r = .bin .sub x y ∧
+      neutralizeRaw (.bin op l r) = swapped (neutralizeBin .sub y x) := by
+  by_cases h : op = .sub ∧ l = .const 0 ∧ ∃ x y, r = .bin .sub x y
+  · obtain ⟨rfl, rfl, x, y, rfl⟩ := h
+    exact .inr ⟨x, y, rfl, rfl, rfl, neutralizeRaw_zero_sub x y⟩
+  · left
+    cases op <;> try rfl
+    cases l <;> try rfl
+    cases r <;> try rfl
+    rename_i c op2 x y
+    cases op2 <;> try rfl
+    simp only [neutralizeRaw]
+    split
+    · rename_i hc
+      exact absurd ⟨rfl, by rw [hc], x, y, rfl⟩ h
+    · rfl
+
+/-- a `Negate` node: the swap or nothing -/
+theorem neutralizeRaw_neg_cases (v : Arg) :
+    neutralizeRaw (.neg v) = .ok (false, .neg v) ∨
+    ∃ x y, v = .bin .sub x y ∧ neutralizeRaw (.neg v) = swapped (neutralizeBin .sub y x) := by
+  by_cases h : ∃ x y, v = .bin .sub x y
+  · obtain ⟨x, y, rfl⟩ := h
+    exact .inr ⟨x, y, rfl, neutralizeRaw_neg_sub x y⟩
+  · left
+    cases v <;> try rfl
+    rename_i op x y
+    cases op <;> try rfl
+    exact absurd ⟨_, _, rfl⟩ h
+
+theorem neutralizeRaw_other {a : Arg} (h1 : ∀ op l r, a ≠ .bin op l r) (h2 : ∀ v, a ≠ .neg v) :
+    neutralizeRaw a = .ok (false, a) := by
+  cases a with
+  | bin op l r => exact absurd rfl (h1 op l r)
+  | neg v => exact absurd rfl (h2 v)
+  | _ => rfl
+
+theorem neutralizeRaw_nb {op : BinOp} {l r : Arg} {c : Bool} {a' : Arg} (h : nb (.bin op l r) = true)
+    (he : neutralizeRaw (.bin op l r) = .ok (c, a')) : nb a' = true ∧ isC a' = false := by
+  rcases neutralizeRaw_bin_cases op l r with h0 | ⟨x, y, rfl, rfl, rfl, h0⟩
+  · rw [h0] at he; exact neutralizeBin_nb h he
+  · rw [h0] at he
+    obtain ⟨_, c', he'⟩ := swapped_ok he
+    obtain ⟨_, h2, _⟩ := nb_bin.1 h
+    obtain ⟨n1, n2, n3⟩ := nb_bin.1 h2
+    exact neutralizeBin_nb (nb_bin.2 ⟨n2, n1, fun ⟨p, q⟩ => n3 ⟨q, p⟩⟩) he'
+
+/-- `neutralize_raw` on a `Negate` node with an `nb` operand -/
+theorem neutralizeRaw_neg_nb {v : Arg} {c : Bool} {a' : Arg} (hv : nb v = true) (hc : isC v = false)
+    (he : neutralizeRaw (.neg v) = .ok (c, a')) : nb a' = true ∧ isC a' = false := by
+  rcases neutralizeRaw_neg_cases v with h0 | ⟨x, y, rfl, h0⟩
+  · rw [h0] at he
+    simp only [Res.ok.injEq, Prod.mk.injEq] at he
+    obtain ⟨_, rfl⟩ := he
+    exact ⟨nb_neg.2 ⟨hv, hc⟩, rfl⟩
+  · rw [h0] at he
+    obtain ⟨_, c', he'⟩ := swapped_ok he
+    obtain ⟨n1, n2, n3⟩ := nb_bin.1 hv
+    exact neutralizeBin_nb (nb_bin.2 ⟨n2, n1, fun ⟨p, q⟩ => n3 ⟨q, p⟩⟩) he'
 
 theorem normAddSub_ne_panic (s : Bool) (r : Arg) : normAddSub s r ≠ .panic := by
   unfold normAddSub
@@ -264,16 +355,25 @@ theorem neutralTail_ne_panic (ch : Bool) (op : BinOp) (l r : Arg) : neutralTail 
   · simp
   · split <;> simp
 
+theorem neutralizeBin_ne_panic (op : BinOp) (l r : Arg) : neutralizeBin op l r ≠ .panic := by
+  simp only [neutralizeBin]
+  split
+  · cases hn : normAddSub (decide (op = .sub)) r with
+    | ok p => exact neutralTail_ne_panic _ _ _ _
+    | err e => simp
+    | panic => exact (normAddSub_ne_panic _ _ hn).elim
+  · exact neutralTail_ne_panic _ _ _ _
+
 theorem neutralizeRaw_ne_panic (a : Arg) : neutralizeRaw a ≠ .panic := by
   cases a with
   | bin op l r =>
-    simp only [neutralizeRaw]
-    split
-    · cases hn : normAddSub (decide (op = .sub)) r with
-      | ok p => exact neutralTail_ne_panic _ _ _ _
-      | err e => simp
-      | panic => exact (normAddSub_ne_panic _ _ hn).elim
-    · exact neutralTail_ne_panic _ _ _ _
+    rcases neutralizeRaw_bin_cases op l r with h0 | ⟨x, y, _, _, _, h0⟩
+    · rw [h0]; exact neutralizeBin_ne_panic _ _ _
+    · rw [h0]; exact fun h => neutralizeBin_ne_panic _ _ _ (swapped_panic h)
+  | neg v =>
+    rcases neutralizeRaw_neg_cases v with h0 | ⟨x, y, _, h0⟩
+    · rw [h0]; simp
+    · rw [h0]; exact fun h => neutralizeBin_ne_panic _ _ _ (swapped_panic h)
   | _ => simp [neutralizeRaw]
 
 theorem neutralize_ne_panic_both :
@@ -304,7 +404,12 @@ theorem neutralize_ne_panic_both :
     cases h1 : neutralize a with
     | panic => exact (ih h1).elim
     | err e => simp
-    | ok p => simp
+    | ok p =>
+      simp only
+      cases h3 : neutralizeRaw (.neg p.2) with
+      | panic => exact (neutralizeRaw_ne_panic _ h3).elim
+      | err e => simp
+      | ok _ => simp
   case not =>
     intro a ih
     simp only [neutralize]
@@ -391,13 +496,21 @@ theorem neutralize_nb_both :
     | err e => simp [h1] at he
     | ok p =>
       obtain ⟨c1, v'⟩ := p
-      simp only [h1, Res.ok.injEq, Prod.mk.injEq] at he
-      obtain ⟨_, rfl⟩ := he
+      simp only [h1] at he
       have i1 := ih ha c1 v' h1
-      refine ⟨nb_neg.2 ⟨i1.1, ?_⟩, fun h => by simp at h⟩
-      cases hx : isC v'
-      · rfl
-      · have := i1.2 hx; simp [hc] at this
+      have hcv : isC v' = false := by
+        cases hx : isC v'
+        · rfl
+        · have := i1.2 hx; simp [hc] at this
+      cases h3 : neutralizeRaw (.neg v') with
+      | panic => simp [h3] at he
+      | err e => simp [h3] at he
+      | ok w =>
+        obtain ⟨c3, a3⟩ := w
+        simp only [h3, Res.ok.injEq, Prod.mk.injEq] at he
+        obtain ⟨_, rfl⟩ := he
+        have := neutralizeRaw_neg_nb i1.1 hcv h3
+        exact ⟨this.1, fun h => by simp [this.2] at h⟩
   case not =>
     intro a ih h c a' he
     simp only [nb] at h
